@@ -225,26 +225,38 @@ where
     }
 
     async fn dump_in_memory(&mut self, blob_size: u64) -> Result<usize> {
-        if let State::InMemory(headers) = &self.inner {
-            let headers = {
-                let mut headers = headers.write().expect("rwlock");
-                std::mem::take(&mut *headers).headers
-            };
-            if headers.len() == 0 {
+        if let State::InMemory(lock) = &self.inner {
+            let data = std::mem::take(&mut *lock.write().expect("rwlock"));
+            if data.headers.len() == 0 {
                 return Ok(0);
             }
-            debug!("blob index simple in memory headers {}", headers.len());
-            let (meta_buf, bloom_offset) = self.serialize_filters()?;
+            debug!("blob index simple in memory headers {}", data.headers.len());
+            let (meta_buf, bloom_offset) = match self.serialize_filters() {
+                Ok(res) => res,
+                Err(e) => {
+                    // The in-memory headers are the only copy of the index: keep them when the dump fails
+                    *lock.write().expect("rwlock") = data;
+                    return Err(e);
+                }
+            };
             self.bloom_offset = Some(bloom_offset as u64);
-            let findex = FileIndex::from_records(
+            let findex = match FileIndex::from_records(
                 self.name.as_path(),
                 self.iodriver.clone(),
-                &headers,
+                &data.headers,
                 meta_buf,
                 self.params.recreate_file,
                 blob_size,
             )
-            .await?;
+            .await
+            {
+                Ok(findex) => findex,
+                Err(e) => {
+                    // The in-memory headers are the only copy of the index: keep them when the dump fails
+                    *lock.write().expect("rwlock") = data;
+                    return Err(e);
+                }
+            };
             let size = findex.file_size() as usize;
             self.inner = State::OnDisk(findex);
             return Ok(size);
